@@ -6,7 +6,7 @@ use crate::sexp::Sexp;
 pub type Bad = &'static str;
 
 pub const CUSTOM_PTS: [u64; 9] = [0, 192, 199, 200, 204, 207, 208, 242, 255];
-pub const CUSTOM_MINS: [u64; 4] = [4, 8, 12, 20];
+pub const CUSTOM_MINS: [u64; 6] = [4, 6, 8, 12, 13, 20];
 
 #[derive(Debug, Clone, Copy, PartialEq, Eq)]
 pub enum Kind {
@@ -42,7 +42,30 @@ pub enum Request {
     Build(B, Vec<(usize, Fill)>),
     /// only `calculate_size()` and `get_padding()`
     Size(B),
+    Helper(Helper),
 }
+
+/// `(helper NAME ARGS...)`: a direct call of one of the crate's public `utils` helpers.
+#[derive(Debug)]
+pub enum Helper {
+    WriteHeader {
+        pt: u8,
+        padding: u8,
+        count: u8,
+        len: usize,
+        fill: Fill,
+    },
+    WritePadding {
+        padding: u8,
+        len: usize,
+        fill: Fill,
+    },
+    CheckPadding(u8),
+    ParseFields(Vec<u8>),
+}
+
+/// Largest LEN of a helper buffer.
+pub const HELPER_MAX_LEN: u64 = 1 << 20;
 
 #[derive(Debug)]
 pub enum AppCall {
@@ -426,6 +449,79 @@ pub fn kind(s: &Sexp) -> Result<Kind, Bad> {
     }
 }
 
+/// FILL of a buffer spec: `HH` or `pat`.
+fn fill(s: &Sexp) -> Result<Fill, Bad> {
+    let f = s.atom().ok_or("bufs")?;
+    if f == "pat" {
+        return Ok(Fill::Pat);
+    }
+    let mut one = Vec::new();
+    hex_atom(f, &mut one).map_err(|_| "bufs")?;
+    if one.len() != 1 {
+        return Err("bufs");
+    }
+    Ok(Fill::Const(one[0]))
+}
+
+/// `(helper NAME ARGS...)` (PROTOCOL.md §4.4). Every malformed form is `helper-args`.
+fn helper(args: &[Sexp]) -> Result<Helper, Bad> {
+    const BAD: Bad = "helper-args";
+    let (name, a) = args.split_first().ok_or(BAD)?;
+    let name = name.atom().ok_or(BAD)?;
+    let n = |i: usize| -> Result<u64, Bad> { num(a.get(i).ok_or(BAD)?).map_err(|_| BAD) };
+    let len_fill = |i: usize| -> Result<(usize, Fill), Bad> {
+        let len = n(i)?;
+        if len > HELPER_MAX_LEN {
+            return Err(BAD);
+        }
+        let f = fill(a.get(i + 1).ok_or(BAD)?).map_err(|_| BAD)?;
+        Ok((len as usize, f))
+    };
+    let want = |k: usize| if a.len() == k { Ok(()) } else { Err(BAD) };
+    match name {
+        "write_header" => {
+            want(5)?;
+            let (pt, padding, count) = (n(0)?, n(1)?, n(2)?);
+            let (len, fill) = len_fill(3)?;
+            if !CUSTOM_PTS.contains(&pt) {
+                return Err("custom-grid");
+            }
+            Ok(Helper::WriteHeader {
+                pt: pt as u8,
+                padding: padding as u8,
+                count: count as u8,
+                len,
+                fill,
+            })
+        }
+        "write_padding" => {
+            want(3)?;
+            let padding = n(0)?;
+            let (len, fill) = len_fill(1)?;
+            Ok(Helper::WritePadding {
+                padding: padding as u8,
+                len,
+                fill,
+            })
+        }
+        "check_padding" => {
+            want(1)?;
+            Ok(Helper::CheckPadding(n(0)? as u8))
+        }
+        // `utils::pad_to_4bytes` is `pub(crate)`: not callable from outside the crate
+        "pad_to_4bytes" => {
+            want(1)?;
+            n(0)?;
+            Err("not-exported")
+        }
+        "parse_fields" => {
+            want(1)?;
+            Ok(Helper::ParseFields(bytes(&a[0]).map_err(|_| BAD)?))
+        }
+        _ => Err(BAD),
+    }
+}
+
 pub fn request(s: &Sexp) -> Result<Request, Bad> {
     let (head, args) = s.call().ok_or("request")?;
     match head {
@@ -472,18 +568,7 @@ pub fn request(s: &Sexp) -> Result<Request, Bad> {
                         return Err("bufs");
                     }
                     let len = num(&l[0]).map_err(|_| "bufs")? as usize;
-                    let f = l[1].atom().ok_or("bufs")?;
-                    let fill = if f == "pat" {
-                        Fill::Pat
-                    } else {
-                        let mut one = Vec::new();
-                        hex_atom(f, &mut one).map_err(|_| "bufs")?;
-                        if one.len() != 1 {
-                            return Err("bufs");
-                        }
-                        Fill::Const(one[0])
-                    };
-                    specs.push((len, fill));
+                    specs.push((len, fill(&l[1])?));
                 }
             }
             Ok(Request::Build(b, specs))
@@ -492,6 +577,7 @@ pub fn request(s: &Sexp) -> Result<Request, Bad> {
             arity(args, 1)?;
             Ok(Request::Size(builder(&args[0])?))
         }
+        "helper" => Ok(Request::Helper(helper(args)?)),
         _ => Err("request"),
     }
 }
